@@ -502,6 +502,11 @@ def parseC (table : List NameInfo) (expr : String) : Except CErr (Option Expr) :
     | .error e => .error e
     | .ok r => .ok (some r)
 
+/-- the parsed expression read as a regular expression; the empty expression matches the empty sequence only -/
+def contentRE : Option Expr → RE
+  | none => RE.eps
+  | some e => e.toRE
+
 /-- `ContentMatch.parse` without the dead-end check: the compiled automaton -/
 def compileDfa : Option Expr → Dfa
   | none => #[⟨true, []⟩]
